@@ -569,6 +569,98 @@ pub fn run(tier: Tier) -> i32 {
         extra: vec![],
     });
 
+    // the builder's other setters: a format and a compression method that are stated instead of
+    // detected, in every order of the calls, must give what detection gives when they are right
+    {
+        use genotype::reader::builder::{CompressionMethod, Format};
+        let cs = sets[0].1;
+        let n = cs.samples.len();
+        let mut bj: Vec<(Container, usize, usize, bool)> = Vec::new();
+        for c in Container::all() {
+            for fmt in 0..3usize {
+                for comp in 0..3usize {
+                    for format_first in [false, true] {
+                        bj.push((c, fmt, comp, format_first));
+                    }
+                }
+            }
+        }
+        let res = par_map(bj.len(), |i| {
+            let (c, fmt, comp, format_first) = bj[i];
+            let is_bcf = matches!(c, Container::Bcf | Container::RawBcf);
+            // the statement must be true for the container (a wrong one may fail or misread: not checked)
+            let right_format = if is_bcf { Format::Bcf } else { Format::Vcf };
+            let right_comp = if c.compressed() { Some(CompressionMethod::Bgzf) } else { None };
+            let bytes = render(cs, c, &Layout::Single);
+            let r = catch(move || {
+                let mut b = genotype::reader::Builder::default();
+                let set_f = |b: genotype::reader::Builder| match fmt { 0 => b, 1 => b.set_format(right_format), _ => b.set_format(right_format).set_format(right_format) };
+                let set_c = |b: genotype::reader::Builder| match comp { 0 => b, 1 => b.set_compression_method(right_comp), _ => b.set_compression_method(None).set_compression_method(right_comp) };
+                b = if format_first { set_c(set_f(b)) } else { set_f(set_c(b)) };
+                let g = b.verif_build_from_reader(Cursor::new(bytes)).map_err(|e| e.to_string())?;
+                let map: Vec<Option<usize>> = (0..n).map(|i| Some(i % 2)).collect();
+                let mut site = build_site_reader(g, &map, None)?;
+                run_reader(&mut site)
+            });
+            let o = match r {
+                Ok(x) => x,
+                Err(p) => Err(format!("panic: {p}")),
+            };
+            if o.is_ok() && o == lib_canon[0] {
+                None
+            } else {
+                Some((
+                    format!("C12|lib|stated-format-or-compression|{}", c.name()),
+                    format!("{} read with format {} and compression {} ({} first): {:?}, canonical {:?}", c.name(), ["detected", "stated", "stated twice"][fmt], ["detected", "stated", "stated after None"][comp], if format_first { "format" } else { "compression" }, o.as_ref().map(|x| &x.spectrum.data), lib_canon[0].as_ref().map(|x| &x.spectrum.data)),
+                    J::obj([("kind", J::s("c12-builder"))]),
+                ))
+            }
+        });
+        for v in res.into_iter().flatten() {
+            rep.violation(v.0, v.1, v.2);
+        }
+        rep.part(Part {
+            name: "lib: stated format and compression method".into(),
+            evaluations: bj.len() as u64,
+            nontrivial: bj.len() as u64,
+            note: "4 containers x format {detected, stated, stated twice} x compression {detected, stated, stated after None} x both orders of the calls, the statements being true for the container: the canonical spectrum".into(),
+            exhaustive: true,
+            extra: vec![],
+        });
+    }
+    // a failing run is deterministic too: a list with two and three unknown samples names the same one
+    // in every run (fresh process = fresh hash seeds)
+    {
+        let cs = sets[0].1;
+        let mut n = 0u64;
+        for list in ["nobody_b,s0,nobody_a", "s1,zz_unknown,aa_unknown,s0,mm_unknown"] {
+            for c in [Container::Vcf, Container::Bcf] {
+                let bytes = render(cs, c, &Layout::Single);
+                let outs: Vec<Out> = (0..8).map(|_| run_sfs(&["create", "-s", list], Stdin::Bytes(&bytes), &scratch)).collect();
+                n += outs.len() as u64;
+                let same = outs.iter().all(|o| o.code == outs[0].code && o.stdout == outs[0].stdout && o.stderr == outs[0].stderr);
+                if !same || outs[0].ok() {
+                    let mut seen: Vec<String> = outs.iter().map(|o| format!("{} {}", o.status_str(), o.stderr_str().trim())).collect();
+                    seen.sort();
+                    seen.dedup();
+                    rep.violation(
+                        "C12|cli|failing-run-differs-between-runs".to_string(),
+                        format!("create -s {list} on {} run 8 times gives {} different outcomes: {seen:?}", c.name(), seen.len()),
+                        J::obj([("kind", J::s("c12-unknown-samples")), ("list", J::s(list)), ("container", J::s(c.name()))]),
+                    );
+                }
+            }
+        }
+        rep.part(Part {
+            name: "cli: failing runs are deterministic".into(),
+            evaluations: n,
+            nontrivial: n,
+            note: "lists naming two and three samples that are not in the input, vcf and bcf, 8 fresh processes each: the same exit status and the same message every time".into(),
+            exhaustive: true,
+            extra: vec![],
+        });
+    }
+
     // hash-order observer
     let mut order_notes = Vec::new();
     let mut ev = 0u64;
